@@ -1221,7 +1221,12 @@ async def c04_ident(w):
 def install_virtual_time(loop, t0=1000.0):
     """Virtual clock on the running loop: whenever the loop would sleep, time jumps to the next deadline instead."""
     vt = [t0]
-    loop.time = lambda: vt[0]
+
+    def vtime():
+        # every reading advances the clock by a nanosecond: code that spins until "a microsecond has passed" makes progress
+        vt[0] += 1e-9
+        return vt[0]
+    loop.time = vtime
     sel = loop._selector
     orig = sel.select
 
@@ -3224,6 +3229,167 @@ async def c01_random_bounded(w):
     await shutdown()
     return {"unit": "AstEval on random programs", "method": "real interpreter vs CPython on tracer values", "bound": f"{n} random programs (expression depth <= 3, statement depth <= 2), seeded",
             "cases": cases, "failures": failures, "reproduced": bool(failures)}
+
+
+# ---------------------------------------------------------------------------------------------------------
+# both subsystems as each other's oracle: random decorator stacks x timed histories on a virtual clock
+# ---------------------------------------------------------------------------------------------------------
+async def cx_dual_bounded(w):
+    """Random stacks of trigger / guard decorators on one function, driven through a random timed history of state changes
+    and events on a virtual clock, once per decorator subsystem.  The two implementations are independent, so a
+    disagreement on which occurrences run the function, when, and with which arguments means one of them breaks the
+    property concerned (C04, C05, C06, C07, C08); agreement is evidence only up to the stated bound."""
+    import random
+    from types import SimpleNamespace as NS
+    from custom_components.pyscript.state import State, StateVal
+    from custom_components.pyscript.global_ctx import GlobalContext, GlobalContextMgr
+    rng = random.Random(31337 + int(w.get("seed", 0)))
+    n = int(w.get("programs", 100))
+    failures, cases, samples = [], 0, []
+    nontrivial = set()
+
+    def gen_program():
+        decs = []
+        kinds = rng.sample(["state", "event", "time"], k=rng.choice([1, 1, 2]))
+        if "state" in kinds:
+            expr = rng.choice(["int(pyscript.v) > 0", "pyscript.v == '3'", "pyscript.v", "pyscript.v.a", "pyscript.v.*", "pyscript.v.a == 'x' and int(pyscript.v) > 0",
+                               "int(pyscript.v) > int(pyscript.v.old or 0)"])
+            kw = []
+            if "==" in expr or ">" in expr:
+                if rng.random() < 0.4:
+                    kw.append(f"state_hold={rng.choice([0, 1.9, 3.9])}")     # off the 0.25 s grid: no ties with events / windows
+                if rng.random() < 0.4:
+                    kw.append(f"state_hold_false={rng.choice([0, 1.9, 3.9])}")
+                if rng.random() < 0.4:
+                    kw.append(f"state_check_now={rng.choice([True, False])}")
+            if rng.random() < 0.3:
+                kw.append("kwargs={'tag': 'st'}")
+            decs.append(f"@state_trigger({expr!r}{''.join(', ' + k for k in kw)})")
+        if "event" in kinds:
+            filt = rng.choice([None, "n > 1", "n == 2 or src == 'a'"])
+            decs.append(f"@event_trigger('dual_ev'" + (f", {filt!r}" if filt else "") + (", kwargs={'tag': 'ev'}" if rng.random() < 0.3 else "") + ")")
+        if "time" in kinds:
+            decs.append("@time_trigger(" + rng.choice(["'period(now + 1.25s, 3s)'", "'once(now + 2.25s)'", "'startup'", "'once(now + 0.75s)', 'once(now + 5.25s)'"]) + ")")
+        if rng.random() < 0.4:
+            decs.append("@state_active(" + repr(rng.choice(["pyscript.g == '1'", "int(pyscript.v) != 2", "pyscript.v.old != '1'"])) + ")")
+        if rng.random() < 0.4:
+            # windows relative to the (virtual) wall clock that starts at 12:00:00
+            spec = rng.choice(["'range(12:00:02.3, 12:00:05.8)'", "'not range(12:00:02.8, 12:00:04.6)'", "'range(12:00:00, 12:00:04.3)', 'not range(12:00:01.1, 12:00:02.2)'"])
+            ho = rng.choice(["", "", ", hold_off=1.4", ", hold_off=2.9"])   # no ties with the 0.25 s event grid / 3 s period
+            decs.append(f"@time_active({spec}{ho})")
+        elif rng.random() < 0.2:
+            decs.append(f"@time_active(hold_off={rng.choice([1.4, 2.9])})")
+        rng.shuffle(decs)
+        hist = []
+        t = 0.0
+        for _ in range(rng.randrange(2, 7)):
+            t += rng.choice([0.5, 1.0, 1.5, 2.5])
+            k = rng.random()
+            if k < 0.45:
+                hist.append((t, "v", str(rng.choice([0, 1, 2, 3, -1]))))
+            elif k < 0.6:
+                hist.append((t, "v.a", rng.choice(["x", "y"])))
+            elif k < 0.7:
+                hist.append((t, "g", rng.choice(["0", "1"])))
+            else:
+                hist.append((t, "ev", {"n": rng.choice([1, 2, 3]), "src": rng.choice(["a", "b"])}))
+        return decs, hist
+
+    async def run(legacy, decs, hist, idx):
+        import datetime as dtm
+        from custom_components.pyscript import trigger as T
+        from custom_components.pyscript.decorators import timing as TM
+        env = await c05_env(legacy)
+        hass, table, vt = env.hass, env.table, env.vt
+        t0 = vt[0]
+        base = dtm.datetime(2024, 3, 13, 12, 0, 0)
+        last = [None]
+
+        def now():
+            v = base + dtm.timedelta(seconds=round(vt[0] - t0, 6))
+            if last[0] is not None and v <= last[0]:
+                v = last[0] + dtm.timedelta(microseconds=1)
+            last[0] = v
+            return v
+        T.dt_now = now
+        T.time = NS(monotonic=lambda: vt[0])
+        TM.time = NS(monotonic=lambda: vt[0])
+        table.clear()
+        State.notify_var_last.clear()
+        table["pyscript.v"] = ("0", {"a": "p"})
+        table["pyscript.g"] = ("1", {})
+        runs = []
+        name = f"file.dual_{'l' if legacy else 'n'}_{idx}"
+
+        def record(kw_):
+            d = {k: (str(v) if not isinstance(v, (int, type(None))) else v) for k, v in kw_.items() if k in ("trigger_type", "var_name", "value", "old_value", "tag", "n", "src", "event_type")}
+            tt = kw_.get("trigger_time")
+            if tt is not None:
+                d["trigger_time"] = tt if isinstance(tt, str) else round((tt - base).total_seconds(), 2)
+            runs.append((round(vt[0] - t0, 2), d))
+        gctx = GlobalContext(name, global_sym_table={"__name__": name, "record": record}, manager=GlobalContextMgr)
+        GlobalContextMgr.set(name, gctx)
+        gctx.set_auto_start(True)
+        src = "\n".join(decs) + "\ndef f(**kw):\n    record(kw)\n"
+        _, _, exc = await run_source(name, src, global_ctx=gctx)
+        await settle(40)
+
+        def sv(ent, st):
+            return StateVal(NS(state=st[0], attributes=dict(st[1]), entity_id=ent, last_updated="u", last_changed="c", last_reported="r"))
+        for (t, what, val) in hist:
+            await asyncio.sleep(max(0.0, t - (vt[0] - t0)))
+            if what == "ev":
+                for cb in list(hass.bus.listeners.get("dual_ev", [])):
+                    await cb(NS(event_type="dual_ev", context=None, data=dict(val)))
+            else:
+                ent = "pyscript.g" if what == "g" else "pyscript.v"
+                old = table[ent]
+                new = (val, dict(old[1])) if what in ("v", "g") else (old[0], {**old[1], "a": val})
+                if new == old:
+                    continue
+                table[ent] = new
+                nvv, ovv = sv(ent, new), sv(ent, old)
+                await State.update({ent: nvv, f"{ent}.old": ovv}, {"trigger_type": "state", "var_name": ent, "value": nvv, "old_value": ovv, "context": None})
+            await settle(40)
+        await asyncio.sleep(max(0.0, (hist[-1][0] if hist else 0) + 8.0 - (vt[0] - t0)))
+        await settle(40)
+        gctx.stop()
+        GlobalContextMgr.delete(name)
+        await settle(20)
+        await shutdown()
+        return runs, repr(exc) if exc else None
+    import threading, os as _os, time as _time
+    progress = [0, _time.time()]
+
+    def _watchdog():
+        # a program that makes no progress for 60 s of real time is a hang of the harness or of the code: abort loudly
+        while True:
+            _time.sleep(5)
+            if _time.time() - progress[1] > 60:
+                print(json.dumps({"error": f"no progress for 60 s in program {progress[0]}", "cases": 0}))
+                sys.stdout.flush()
+                _os._exit(4)
+    threading.Thread(target=_watchdog, daemon=True).start()
+    for i in range(n):
+        decs, hist = gen_program()
+        progress[0], progress[1] = i, _time.time()
+        try:
+            new_runs, new_exc = await run(False, decs, hist, i)
+            old_runs, old_exc = await run(True, decs, hist, i)
+        except Exception as e:  # noqa
+            new_runs, new_exc, old_runs, old_exc = "harness", repr(e), "harness", None
+        cases += 1
+        if new_runs or old_runs:
+            nontrivial.add((tuple(decs), len(new_runs) if isinstance(new_runs, list) else -1))
+        if len(samples) < 2:
+            samples.append({"decorators": decs, "history": [list(map(str, h)) for h in hist], "runs": [list(r) for r in new_runs][:4] if isinstance(new_runs, list) else new_runs})
+        if new_runs != old_runs or bool(new_exc) != bool(old_exc):
+            if len(failures) < int(w.get("max_failures", 3)):
+                failures.append({"signature": f"dual:{decs}:{hist}", "decorators": decs, "history": [list(map(str, h)) for h in hist],
+                                 "new_subsystem_runs": new_runs, "legacy_subsystem_runs": old_runs, "new_error": new_exc, "legacy_error": old_exc})
+    return {"unit": "both decorator subsystems end to end", "method": "random decorator stacks x timed histories; legacy vs new subsystem on a virtual clock",
+            "bound": f"{n} random programs (<= 5 decorators, <= 6 history steps), seeded", "cases": cases, "distinct_nontrivial": len(nontrivial), "samples": samples,
+            "failures": failures, "reproduced": bool(failures)}
 
 
 async def c04_classification_bounded(w):
